@@ -45,7 +45,7 @@ class C10(PropBase):
 
     def init_op(self, rng):
         role = "s" if rng.random() < 0.8 else "c"
-        return {"op": "init", "sessions": [{"name": "x", "role": role}], "observe_pending": True,
+        return {"op": "init", "sessions": [{"name": "x", "role": role}], "observe_pending": True, "follow": True,
                 "lazy_drain": rng.random() < 0.7, "big": rng.choice([0.03, 0.15]), "bad_text": rng.choice([0.0, 0.0, 0.04]), "style": policy.wire_style(rng)}
 
     def make(self, init):
@@ -120,7 +120,10 @@ class C10(PropBase):
                 return
             st.label("%s:%s" % (k, "ok" if ev.get("ok", True) else "err"))
             if k == "deliver":
-                self.diverge_unless(ev, "delivery")
+                if ev.get("followed"):
+                    st.hit("mishandled_delivery_followed")
+                else:
+                    self.diverge_unless(ev, "delivery")
             return
         se = w.s.get(op.get("who"))
         if se is None:
@@ -205,7 +208,8 @@ class C10(PropBase):
                     st.x["last_final"] = (m, a)
                 if m == "search_result_done" and pre.kinds.get(a["id"]) != "SearchRequest":
                     st.hit("done_for_nonsearch_id")
-        self.diverge_unless(ev, "call")
+        if not st.reach.get("mishandled_delivery_followed"):
+            self.diverge_unless(ev, "call")
 
     def nontrivial(self, st):
         return st.x["nontrivial"]
